@@ -378,7 +378,10 @@ def check_mirror(ctx):
                     break
         values = first_index(nodes, lambda n: is_mcall(n, "for_each_value_mut"))
         arity = len([p for p in f.params if not p.get("self")])
-        rec = all_indices(nodes, lambda n: n.get("k") == "mcall" and n["m"] == f.name and len(n["args"]) == arity and sir.expr_str(n["recv"]) != "self")
+        # recursion into the children: directly, or through a private helper that loops over a list of nodes and calls the method
+        rec_helpers = set(g_.name for g_ in tc.fns if g_.body and g_ is not f and g_.name != f.name and any(x.get("k") == "mcall" and x["m"] == f.name for x in sir.walk(g_.body)) and "parse" in g_.module)
+        rec = all_indices(nodes, lambda n: (n.get("k") == "mcall" and n["m"] == f.name and len(n["args"]) == arity and sir.expr_str(n["recv"]) != "self")
+                          or (n.get("k") in ("call", "mcall") and (sir.call_name(n) or "").split("::")[-1] in rec_helpers))
         trunc = first_index(nodes, lambda n: is_mcall(n, "truncate", "scopes"))
         save = first_index(nodes, lambda n: n.get("k") == "local" and n.get("init") is not None and is_mcall(n["init"], "len", "scopes"))
         seq = [("save scope depth", save), ("push slot-value scopes", slot_push[0] if slot_push else None), ("visit own values (incl. wx:for list)", values),
